@@ -64,7 +64,13 @@ def runAnalysis (inp : Json) : AnalysisRun :=
     | _ => none)
   let pre := jobj inp "preflight"
   let r := do
-    if jhas inp "preflight" then preflight raw (jbool pre "early") (jbool pre "late")
+    -- validate.ParamRef is decided by the model for positional statements (for named ones the rewrite has
+    -- already numbered the placeholders; the verdict on the un-rewritten tree enters as data)
+    let early : Bool :=
+      if jhas pre "paramStyle" then
+        jbool pre "paramStyle" || (if names.isEmpty then (paramRefCheck (paramNumbers raw)).isSome else jint pre "paramRef" != 0)
+      else jbool pre "early"
+    if jhas inp "preflight" then preflight raw early (jbool pre "late")
     analyze cat raw names (jbool inp "positional")
   let trig := paramTriggers cat raw names
   -- MySQL: IN / BETWEEN / LIKE … are converted to ast.TODO nodes, the placeholders inside them are lost
